@@ -12,7 +12,7 @@ NONTRIVIAL_FEATS = {'loop', 'exception', 'yield', 'generator-driven', 'recursion
 
 
 def make_case(rng, twins_both=True):
-    prog = progs.gen_program(rng)
+    prog = progs.gen_program(rng, opts={'renable': True} if rng.fork('renable').chance(1, 3) else None)
     names = [n for (_f, n, _k) in prog['funcs']]
     twin = [n for n in names if n.endswith('t')]
     k = rng.below(len(names)) + 1
